@@ -308,6 +308,9 @@ def pay_strategies(hashed, tier):
     add("customer balance -1, range proof unlinked", {"pay.cb": {"m": {"pt": 0, "st": 6, "cl": 6, "d1": 0}, "t": {"d1": 2}}}, amount=101, unlink=["pt3", "st3"])
     # pay token
     add("pay token signed by another key", token="otherkey")
+    add("all-identity blinded pay token (chosen randomness) around an unsigned old state", token="identity",
+        hpt=v(3, "val:1000000"), hst=v(3, "val:999993"), hcl=v(3, "val:999993"))
+    add("all-identity blinded pay token (chosen randomness) around the real old state", token="identity")
     add("old balance inflated consistently (token does not cover it)", hpt=v(3, "plus1"), hst=v(3, "plus1"), hcl=v(3, "plus1"))
     add("old channel id replaced consistently (token does not cover it)", hpt=v(0, "plus1"), hst=v(0, "plus1"), hcl=v(0, "plus1"))
     add("old nonce replaced consistently (token does not cover it)", hpt=v(1, "plus1"), claimed_nonce="plus1")
